@@ -1,6 +1,6 @@
 # C11 - thread pool: every submission runs once on a worker or is cancelled once
 import re
-from ..core import var_def, tests, norm, relloc, live, calls, evs, Broken, value_origin, Tracer, fmt_trace, rooted, has_back_edge, cond_event, efield
+from ..core import Item, var_def, tests, norm, relloc, live, calls, evs, Broken, value_origin, Tracer, fmt_trace, rooted, has_back_edge, cond_event, efield
 from .. import locks
 from ..rules import *
 from .tables import GUARDED
@@ -37,26 +37,131 @@ def run(ctx, db, tier):
     run_async_owned(ctx, db)
 
 
+HANDOVER = re.compile(r'function_base|thread_pool::run_detached|thread_pool::enqueue')
+_BUILTIN = re.compile(r'^(?:const |volatile )*(?:_Bool|bool|char|short|int|long|unsigned|signed|float|double|void|std::size_t|size_t|std::nullptr_t)\b[\w ]*$')
+
+
+def _functor_class(db, type_):
+    """the class record of a task type written as a class with a call operator (struct start_task { async<T> coro; promise<T> prom; void operator()(); })
+    instead of a lambda: (record, [instances of its operator()]) or None.  Only classes of the library that have data members or a destructor of
+    their own and exactly one call operator"""
+    t = re.sub(r'\b(?:class|struct|const|volatile)\s+', '', type_ or '').strip().rstrip('&* ')
+    n = norm(t)
+    if not n or 'lambda' in n or 'anonymous' in n or n.startswith('std::') or n in ('cocls::function', 'cocls::function_base', 'function', 'q_item', 'cocls::thread_pool::q_item'):
+        return None          # (cocls::function is the type-erased queue item itself, not a task)
+    cache = db.__dict__.setdefault('_c11_functors', {})
+    if n in cache:
+        return cache[n]
+    recs = [c for c in db.classes.values() if norm(c['name']) == n] or [c for c in db.classes.values() if norm(c['name']).endswith('::' + n) and norm(c['name']).startswith('cocls::')]
+    names = {norm(c['name']) for c in recs}
+    r = None
+    if len(names) == 1:
+        cn = names.pop()
+        ops = db.fns(cn + '::operator()')
+        if ops and len({o['key'] for o in ops}) == 1:
+            # prefer the record of the instantiation the type names
+            inst = [c for c in recs if re.sub(r'\b(?:class|struct)\s+', '', c.get('inst') or '').replace(' ', '') == t.replace(' ', '')] or \
+                   [c for c in recs if re.sub(r'\b(?:class|struct)\s+', '', c.get('inst') or '').replace(' ', '').endswith('::' + t.replace(' ', ''))]
+            r = ((inst or recs)[0], ops)
+    cache[n] = r
+    return r
+
+
+def _functor_site(db, f, ev, type_):
+    """a queue item created from a functor class at event `ev` of f, presented like the `lambda` event of a closure: the data members are its captures"""
+    fc = _functor_class(db, type_)
+    if fc is None:
+        return None
+    rec, ops = fc
+    caps = []
+    for fl in rec.get('fields', []):
+        ct = fl.get('canon_type') or fl.get('type') or ''
+        indirect = ct.rstrip().endswith(('*', '&'))
+        caps.append({'name': fl.get('name'), 'type': fl.get('type'), 'canon_type': ct, 'byref': ct.rstrip().endswith('&'),
+                     'trivial_dtor': bool(indirect or _BUILTIN.match(ct)), 'member': True})
+    return Item(k='lambda', fn_key=ops[0]['key'], loc=ev.get('loc'), captures=caps, use=ev.get('use'), functor=norm(rec['name']), id=ev.get('id'))
+
+
 def _enqueued_lambdas(db):
-    """(parent fn, lambda event) for closures that become queue items"""
+    """(parent fn, lambda event) for closures that become queue items; a task written as a class with a call operator (member or namespace-scope
+    struct constructed where it is handed over) is reported as (parent fn, pseudo lambda event) by _functor_site"""
+    cached = db.__dict__.get('_c11_tasks')
+    if cached is not None:
+        return cached
     out = []
+
+    def add(f, e):
+        if e is not None and not any(f is f_ and (e is e_ or (e.get('functor') and e_.get('functor') == e['functor'] and e_.get('loc') == e.get('loc'))) for f_, e_ in out):
+            out.append((f, e))
     for f in db.all_instances():
         if not f['nname'].startswith(TP):
             continue
         lam = {e['fn_key']: e for e in f.events() if e.k == 'lambda'}
         for e in f.events():
-            if e.k == 'lambda' and re.search(r'function_base|thread_pool::run_detached|thread_pool::enqueue', e.get('use') or ''):
-                out.append((f, e))
+            if e.k == 'lambda' and HANDOVER.search(e.get('use') or ''):
+                add(f, e)
+            if e.k == 'construct' and not e.get('copy_or_move') and HANDOVER.search(e.get('use') or '') and not HANDOVER.search(norm(e.get('callee') or '')):
+                # enqueue(transfer_task(this)): the object is created where it is handed over
+                add(f, _functor_site(db, f, e, e.get('type')))
             if e.k == 'call' and norm(e.get('callee') or '') in ('cocls::thread_pool::run_detached', 'cocls::thread_pool::enqueue'):
-                # a named closure: auto task = [...]{...}; run_detached(std::move(task));
                 for a in e.get('args') or []:
+                    # a named closure: auto task = [...]{...}; run_detached(std::move(task));
                     m_ = re.fullmatch(r'(?:move|forward)?\(?local:(\w+)\)?', a.get('path') or '')
                     if m_:
                         d_ = var_def(f, m_.group(1), e.get('loc'))
                         ini = (d_ or {}).get('init') or ''
-                        if ini.startswith('lambda@') and ini[7:] in lam and (f, lam[ini[7:]]) not in out:
-                            out.append((f, lam[ini[7:]]))
+                        if ini.startswith('lambda@') and ini[7:] in lam:
+                            add(f, lam[ini[7:]])
+                        elif d_ is not None and not (d_.get('ref') or d_.get('ptr')) and _functor_class(db, d_.get('type')):
+                            add(f, _functor_site(db, f, d_, d_.get('type')))
+                    elif re.fullmatch(r'\{.*,.*\}', a.get('path') or '') or (a.get('path') or '') == '{...}' or re.fullmatch(r'\{[^{}]+\}', a.get('path') or ''):
+                        # run_detached(start_task<T>{std::move(fn), std::move(promise)}): an aggregate built in the argument
+                        add(f, _functor_site(db, f, e, a.get('type')))
+    db.__dict__['_c11_tasks'] = out
     return out
+
+
+def _guard_class(db, site, cap):
+    """a task class that guards a raw waiter pointer itself (the hand-written form of unique_ptr + deleter): its destructor reaches
+    coro_queue::resume / awaiter::resume, resumes only where the pointer member tested non-null, and moving the task nulls the source (so exactly one
+    object is armed).  Returns a description, or None"""
+    cn = site.get('functor')
+    if not cn or not cap.get('member') or not (cap.get('canon_type') or '').rstrip().endswith('*'):
+        return None
+    dts = db.fns(cn + '::~' + cn.split('::')[-1])
+    if not dts:
+        return None
+    fns, ext, _ = reach(db, dts[:1])
+    if not any(g['nname'] in ('cocls::coro_queue::resume', 'cocls::awaiter::resume') for g in fns):
+        return None
+    member = 'this->' + cap['name']
+    H = htracer(db)
+    nres = 0
+    for tr in H.traces(dts[0]):
+        if not live(tr):
+            continue
+        for i, it in enumerate(tr):
+            if it.k == 'call' and norm(it.get('callee') or '') in ('cocls::coro_queue::resume', 'cocls::awaiter::resume') and it.get('depth', 0) == 0:
+                nres += 1
+                armed = None
+                for j in range(i):
+                    nt = null_test(tr, j) if tr[j].k == 'branch' else None
+                    if nt and nt[0] == member:
+                        armed = nt[1]
+                if armed is not True:
+                    return None
+    if nres == 0:
+        return None
+    # copies: every constructor from an object of the same class must disarm its source; an implicitly copyable guard resumes twice
+    ctors = [g for g in db.fns(cn + '::' + cn.split('::')[-1]) if len(g['params']) == 1 and norm(re.sub(r'\b(?:class|struct|const)\s+', '', g['params'][0].get('type') or '')).rstrip('&* ').endswith(cn.split('::')[-1])]
+    if not ctors:
+        return None
+    for g in ctors:
+        src = 'param:' + g['params'][0]['name']
+        if '&&' not in (g['params'][0].get('type') or '') or not any(null_store(x, '.' + cap['name']) or null_store(x, '->' + cap['name']) for x in g.events()
+                                                                      if src in ((x.get('path') or '') + (x.get('recv') or '') + ''.join(a.get('path') or '' for a in x.get('args') or []))):
+            return None
+    return 'pointer guarded by the task class itself: its destructor resumes the waiter while armed, a move disarms the source'
 
 
 def closures(ctx, db, rid_='C11.closure-owns-waiter', rid2_='C11.run-once'):
@@ -81,6 +186,7 @@ def closures(ctx, db, rid_='C11.closure-owns-waiter', rid2_='C11.run-once'):
             for x in g_.events():
                 if x.k == 'lambda':
                     lamdefs.setdefault(x['fn_key'], x)
+        guarded = None
         for c in e.get('captures', []):
             t = (c.get('type') or '') + ' | ' + (c.get('canon_type') or '')
             if not WAITER.search(t):
@@ -89,6 +195,9 @@ def closures(ctx, db, rid_='C11.closure-owns-waiter', rid2_='C11.run-once'):
             owning = None
             if OWNING.search(c.get('canon_type') or c.get('type') or '') and not c.get('trivial_dtor') and not c.get('byref'):
                 owning = 'owning value (destructor cancels / destroys)'
+            elif _guard_class(db, e, c):
+                owning = 'raw ' + _guard_class(db, e, c)
+                guarded = c
             elif 'unique_ptr' in t and not c.get('trivial_dtor'):
                 # find the deleter lambda: defined in the same function, named in the type
                 dl = None
@@ -122,12 +231,16 @@ def closures(ctx, db, rid_='C11.closure-owns-waiter', rid2_='C11.run-once'):
                    desc='closure in %s captures waiter %s without owning it' % (norm(f['nname'])[:60], c.get('name')))
         # body: unique_ptr guards released once and resumed once
         lf = db.get(e['fn_key'])
-        if lf is not None and any('unique_ptr' in (c.get('type') or '') + (c.get('canon_type') or '') for c in e.get('captures', [])):
+        if lf is not None and (guarded is not None or any('unique_ptr' in (c.get('type') or '') + (c.get('canon_type') or '') for c in e.get('captures', []))):
             trs = [t for t in htracer(db).traces(lf) if live(t)]
             ctx.paths(rid2, len(trs))
             bad = None
             for tr in trs:
                 rel = all_indices(tr, lambda ev: ev.k == 'call' and norm(ev.get('callee')) == 'std::unique_ptr::release')
+                if guarded is not None:
+                    # the hand-written guard is released by storing null into the pointer its destructor tests
+                    rel += all_indices(tr, lambda ev: ev.get('depth', 0) == 0 and null_store(ev, 'this->' + guarded['name']))
+                    rel.sort()
                 res = all_indices(tr, callee_is('cocls::coro_queue::resume'))
                 if len(rel) != 1 or len(res) != 1:
                     bad = bad or ('release %d times, resume %d times' % (len(rel), len(res)), tr)
@@ -365,6 +478,9 @@ def await_resume(ctx, db):
     enq = {e['fn_key'] for _, e in _enqueued_lambdas(db)}
     n = 0
     cands = [lf for g_ in db.fns('cocls::thread_pool::co_awaiter::await_suspend')[:1] for h_ in helper_bodies(db, g_) for e_ in h_.events() if e_.k == 'lambda' for lf in db.closure_instances(h_, e_['fn_key'])]
+    # (the queue item may be an object of a task class with a call operator, created in await_suspend or a helper of it)
+    cands += [lf for g_ in db.fns('cocls::thread_pool::co_awaiter::await_suspend')[:1] for h_ in helper_bodies(db, g_) for f_, e_ in _enqueued_lambdas(db)
+              if e_.get('functor') and f_['key'] == h_['key'] for lf in db.instances(e_['fn_key'])[:1]]
     for lf in cands or lambdas_of(db, 'cocls::thread_pool::co_awaiter::await_suspend'):
         if lf['key'] not in enq:
             continue          # the deleter lambda / other helpers
@@ -396,8 +512,10 @@ def run_resolves_once(ctx, db):
     cands = []
     H = htracer(db)
     enq_keys = {e['fn_key'] for _, e in _enqueued_lambdas(db)}
+    # (a task class with a call operator that run() hands to the queue is the same queue item as the closure)
+    functor_keys = {e['fn_key'] for pf, e in _enqueued_lambdas(db) if e.get('functor') and pf['nname'].startswith('cocls::thread_pool::run')}
     for f in db.all_instances():
-        if f.get('lambda') and f['nname'].startswith('cocls::thread_pool::run') and f['key'] in enq_keys and \
+        if ((f.get('lambda') and f['nname'].startswith('cocls::thread_pool::run') and f['key'] in enq_keys) or f['key'] in functor_keys) and \
                 not any(e.k == 'call' and norm(e.get('callee') or '').startswith('cocls::async::') for e in f.events()):
             # the queue item of run(fn): the enqueued closure that calls the user function and - itself or through a helper of the pool - resolves the promise
             if any(e.k == 'call' and norm(e.get('callee')) in PROM for e in f.events()) or any(it.k == 'call' and norm(it.get('callee')) in PROM for tr in H.traces(f) for it in tr):
@@ -458,6 +576,15 @@ def run_async_owned(ctx, db):
                 if e.k == 'lambda':
                     for lf in db.closure_instances(g, e['fn_key']):
                         work.append((lf, owned))
+            # queue items created here from a task class with a call operator: their body is the owning item
+            for pf, e in _enqueued_lambdas(db):
+                if e.get('functor') and pf is g:
+                    ops = [o for o in db.instances(e['fn_key']) if any('async<' in (c.get('canon_type') or '') for c in e.get('captures', []))]
+                    # (the instantiation whose members match the coroutine type of this run(); one representative per pattern in the quick tier)
+                    rt = re.search(r'async<(.*)>', r['params'][0]['type'])
+                    ops = [o for o in ops if rt and ('<%s>' % rt.group(1)) in re.sub(r'\b(?:class|struct) ', '', o.get('class_inst') or o.get('inst') or '')] or ops[:1]
+                    for o in ops:
+                        work.append((o, True))
     if n == 0:
         raise Broken('thread_pool::run(async&) never starts the coroutine: anchor changed')
 
